@@ -63,7 +63,9 @@ func (p *Prog) allowedFn(fn *FuncInfo, allowed map[string]string, depth int) boo
 	p.buildCallers()
 	cs := p.callers[fn.Obj]
 	if len(cs) == 0 {
-		return false
+		// a helper whose every call site was expanded is dead in the normalised view: its
+		// statements are judged where they were expanded
+		return p.expandedFns[fn.Key()]
 	}
 	for _, c := range cs {
 		if c == fn {
@@ -119,4 +121,43 @@ func groupCalls(cs []CallSite) map[*FuncInfo][]ast.Node {
 		m[s.Fn] = append(m[s.Fn], s.Call)
 	}
 	return m
+}
+
+// PrivateClosure returns fn followed by the unexported same-package functions that are
+// referenced only from the set built so far (helpers private to fn), to the given depth.
+func (p *Prog) PrivateClosure(fn *FuncInfo, depth int) []*FuncInfo {
+	p.buildCallers()
+	set := map[*FuncInfo]bool{fn: true}
+	out := []*FuncInfo{fn}
+	for d := 0; d < depth; d++ {
+		var add []*FuncInfo
+		for _, f := range out {
+			for _, cs := range p.CallsIn(f) {
+				g := p.FuncOf(cs.Callee)
+				if g == nil || set[g] || g.Pkg != fn.Pkg || isExported(g.Name) {
+					continue
+				}
+				only := true
+				for _, caller := range p.callers[g.Obj] {
+					if !set[caller] && caller != g {
+						only = false
+					}
+				}
+				if only {
+					set[g] = true
+					add = append(add, g)
+				}
+			}
+		}
+		if len(add) == 0 {
+			break
+		}
+		out = append(out, add...)
+	}
+	return out
+}
+
+// callSitesOf lists the calls to callee inside fn.
+func (p *Prog) callSitesOf(fn, callee *FuncInfo) []CallSite {
+	return p.CallsTo([]*FuncInfo{fn}, callee.Obj)
 }
